@@ -102,7 +102,7 @@ def protocol_engine(ck, prop, tier, seed, work, ev, violations, known, knownhits
 def refcount_engine(ck, prop, tier, seed, work, ev, violations, known, knownhits):
     """RefCount.tla with the atomic orderings extracted from the code (static binding), then the probe events of
     real executions (single-threaded scenarios, free-running threads, gate-scheduled threads) validated by AbsRc."""
-    rc, out = ck.sh([sys.executable, os.path.join(ck.ROOT, 'tools', 'extract_orderings.py'), '/repo/src/waker_list.rs'])
+    rc, out = ck.sh([sys.executable, os.path.join(ck.ROOT, 'tools', 'extract_orderings.py'), os.path.join(os.environ.get('VERIF_REPO', '/repo'), 'src', 'waker_list.rs')])
     if rc != 0:
         raise ck.ToolError('cannot extract the reference-count orderings from src/waker_list.rs: ' + out.strip()[-200:])
     ords = json.loads(out.strip().splitlines()[-1])
